@@ -2,6 +2,7 @@ import MindsVerif.Lemmas.SelectSkel
 import MindsVerif.Lemmas.SelectCompose
 import MindsVerif.Lemmas.SetOps
 import MindsVerif.Lemmas.SelectTokens
+import MindsVerif.Lemmas.LitSeq
 import MindsVerif.Props.C03
 import MindsVerif.Model.Lex
 import MindsVerif.Gen.Lex_sqlite
@@ -197,6 +198,26 @@ example : splitTks (printTks [Clause.from_ [1], .where_ [2, 3, 4], .groupBy [2] 
     some [Clause.from_ [1], .where_ [2, 3, 4], .groupBy [2] [[5]], .limit2 [6] [7], .forUpdate] := by decide
 /-- a payload-less clause is not a clause: `WHERE` followed directly by `LIMIT 1` is rejected -/
 example : splitTks ([.kw .where_, .kw .limit, .pay 1] : List (Tk Nat)) = none := by decide
+
+/-! ## L1 in sequence: several string constants in one statement -/
+
+/-- **a literal ends where the printer ended it, whatever follows**: any sequence of string constants — any values,
+also ones ending in backslashes or quotes — printed by `Constant.get_string` with any separators that do not begin
+with a quote (`, `, ` AND b = `, `)` …, non-empty between two literals) is read back by the lexer model
+(`QUOTE_STRING` match + `unescape_string`) as exactly those values with exactly those boundaries.
+(Single literal with arbitrary continuation: `Codec.roundtrip` of the C04 package.) -/
+theorem C01_partial_literal_sequence (items : List (List Char × List Char)) (h : LitSeq.sepsOK items = true) :
+    LitSeq.readSeq (items.map (·.2)) (LitSeq.printSeq items) = some (items.map (·.1)) :=
+  LitSeq.read_print items h
+
+/-- `'d\\', 'a'` (the value `d\` followed by the value `a`): both values come back -/
+example : LitSeq.readSeq [[',', ' '], []] (LitSeq.printSeq [(['d', '\\'], [',', ' ']), (['a'], [])]) =
+    some [['d', '\\'], ['a']] := by decide +kernel
+
+/-- sensitivity: a printer that leaves a trailing backslash single (`'d\'` for the value `d\`) makes the first
+literal swallow its closing quote — the text is read as ONE literal running on to the next quote, so the sequence
+is not read back -/
+example : LitSeq.readSeq [[',', ' '], []] ['\'', 'd', '\\', '\'', ',', ' ', '\'', 'a', '\''] = none := by decide +kernel
 
 /-! ## L1 atoms repaired in /repo (fa4fc42, 6a738d8): regression obligations on the model of the printers
 (`Lex.parameterToString`, `Lex.variableToString` transcribe the repaired `get_string`s; the former defects —
